@@ -996,7 +996,8 @@ def gen_lifecycle(rng, mode=None):
     pc = rng.choice([0.0, 0.3, 0.3, 1.0])
     return {'op': 'lifecycle', 'mode': mode or rng.choice(['close_links', 'open_links', 'with', 'with']), 'uris': uris,
             'open_fail': [u for u in mem if rng.random() < pf], 'close_fail': [u for u in mem if rng.random() < pc],
-            'body_raises': rng.random() < 0.4}
+            'body_raises': rng.random() < 0.4,
+            'close_ret': {u: rng.choice([None, None, True, False]) for u in mem} if rng.random() < 0.5 else {}}
 
 
 def run_lifecycle(case):
@@ -1023,6 +1024,8 @@ def run_lifecycle(case):
                 e = _CloseErr(self.inst)
                 log['close_errs'][id(e)] = (e, self.k)
                 raise e
+            cr = case.get('close_ret') or {}
+            return cr.get(self.uri, cr.get(str(self.uri)))       # None / True / False, as custom members may
 
         def wait_for_params(self):
             pass
@@ -1571,6 +1574,104 @@ def check_linkstate(case, impl=None):
     return None
 
 
+
+# ------------------------------------------------------------------------------------------ REAL SyncCrazyflie members over a fake Crazyflie (Wave 17)
+def gen_realscf(rng, i=99):
+    n = rng.randrange(1, 6)
+    uris = rng.sample(range(1, 40), n)
+    if i < n:
+        open_fail = [uris[i]]                                  # a failing member in every position of the URI order
+    else:
+        p = rng.choice([0.0, 0.3, 0.6])
+        open_fail = [u for u in uris if rng.random() < p]
+    return {'op': 'realscf', 'uris': uris, 'open_fail': open_fail, 'then_close': rng.random() < 0.5}
+
+
+def run_realscf(case, timeout=8.0):
+    """The real Swarm with REAL SyncCrazyflie members; only the Crazyflie underneath is a fake whose connection
+    callbacks the harness drives (connected / connection_failed / disconnected fire inside open_link / close_link)."""
+    import cflib.crazyflie.swarm as sw
+    from cflib.crazyflie.syncCrazyflie import SyncCrazyflie
+    from cflib.utils.callbacks import Caller
+    fail = set(case['open_fail'])
+
+    class FakeCf:
+        def __init__(self, key):
+            self.key = key
+            self.connected, self.connection_failed = Caller(), Caller()
+            self.disconnected, self.fully_connected = Caller(), Caller()
+            self.link_open = False
+            self.opens = self.closes = 0
+            self.link_uri = None
+
+        def open_link(self, uri):
+            self.opens += 1
+            self.link_uri = uri
+            if self.key in fail:
+                self.connection_failed.call(uri, 'no Crazyflie at %s' % uri)
+            else:
+                self.link_open = True
+                self.connected.call(uri)
+                self.fully_connected.call(uri)
+
+        def close_link(self):
+            self.closes += 1
+            self.link_open = False
+            self.disconnected.call(self.link_uri)
+
+    fakes = {}
+
+    class F:
+        def construct(self, uri):
+            fakes[_O(uri)] = FakeCf(_O(uri))
+            return SyncCrazyflie(uri, cf=fakes[_O(uri)])
+
+    s = sw.Swarm([_S(u) for u in case['uris']], factory=F())
+    res = {}
+
+    def body():
+        try:
+            s.open_links()
+            res['open'] = 'Returned'
+            if case.get('then_close'):
+                r = s.close_links()
+                res['close'] = 'Returned'
+        except Exception as e:  # noqa
+            res['open' if 'open' not in res else 'close'] = 'Raised'
+    t = threading.Thread(target=body, daemon=True)
+    t.start()
+    t.join(timeout)
+    members = list(s._cfs.values())
+    keys = [_O(m._link_uri) for m in members]
+    res.update({'hung': t.is_alive(), 'keys': keys, 'scf_open': [bool(m.is_link_open()) for m in members],
+                'cf_open': [fakes[k].link_open for k in keys], 'opens': [fakes[k].opens for k in keys],
+                'cf_closes': [fakes[k].closes for k in keys], 'is_open': bool(s._is_open)})
+    return res
+
+
+def check_realscf(case, r=None):
+    r = r or run_realscf(case)
+    n = len(r['keys'])
+    if r['hung']:
+        return {'class': 'swarm_call_blocked', 'case': case, 'expected': 'open_links comes back', 'observed': r}
+    failed = bool(case['open_fail'])
+    if r.get('open') != ('Raised' if failed else 'Returned'):
+        return {'class': 'failure_not_raised' if failed else 'raises_without_failure', 'case': case,
+                'expected': 'Raised' if failed else 'Returned', 'observed': r}
+    if r['opens'] != [1] * n:
+        return {'class': 'action_not_run_once_per_member', 'case': case, 'expected': [1] * n, 'observed': r['opens']}
+    must_be_closed = failed or case.get('then_close')
+    if must_be_closed and (any(r['scf_open']) or any(r['cf_open']) or r['is_open']):
+        return {'class': 'link_left_open_after_failed_open' if failed else 'link_left_open_after_close_links', 'case': case,
+                'expected': {'scf_open': [False] * n, 'cf_open': [False] * n, 'is_open': False},
+                'observed': {k: r[k] for k in ('keys', 'scf_open', 'cf_open', 'cf_closes', 'is_open')},
+                'detail': 'if opening any link fails every link is closed again (real SyncCrazyflie members: is_link_open() and '
+                          'the Crazyflie underneath)'}
+    if not must_be_closed and not (all(r['scf_open']) and r['is_open']):
+        return {'class': 'successful_open_closed_links', 'case': case, 'expected': [True] * n, 'observed': r['scf_open']}
+    return None
+
+
 # ------------------------------------------------------------------------------------------ tie
 def _corpus_cases():
     import glob
@@ -1586,7 +1687,7 @@ def _corpus_cases():
 
 
 def _gen_cases(ctx, rng):
-    cases = [c for c in _corpus_cases() if c.get('op') not in ('history', 'process', 'lifecycle', 'helpers', 'linkstate') and c.get('kind') not in ('hold', 'open_drop')]
+    cases = [c for c in _corpus_cases() if c.get('op') not in ('history', 'process', 'lifecycle', 'helpers', 'linkstate', 'realscf') and c.get('kind') not in ('hold', 'open_drop')]
     # all failing subsets for small swarms, several schedules each
     for n in range(0, ctx.scale(4, 5)):
         for sub in itertools.chain.from_iterable(itertools.combinations(range(n), r) for r in range(n + 1)):
@@ -2001,7 +2102,7 @@ def oracle(ctx, deep=False):
         if f and sum(1 for x in fails if x['class'] == f['class']) < 2:
             fails.append(f)
 
-    cases = [c for c in _corpus_cases() if c.get('op') not in ('history', 'process', 'lifecycle', 'helpers', 'linkstate') and c.get('kind') not in ('hold', 'open_drop')]
+    cases = [c for c in _corpus_cases() if c.get('op') not in ('history', 'process', 'lifecycle', 'helpers', 'linkstate', 'realscf') and c.get('kind') not in ('hold', 'open_drop')]
     for size in range(0, ctx.scale(4, 5)):
         for sub in itertools.chain.from_iterable(itertools.combinations(range(size), r) for r in range(size + 1)):
             for op in ('parallel_safe', 'parallel_safe', 'parallel', 'sequential', 'open_links', 'open_twice', 'par_then_par'):
@@ -2033,6 +2134,10 @@ def oracle(ctx, deep=False):
             [gen_linkstate(rng, n=(i % 4) + 1 if i < 24 else None) for i in range(ctx.scale(250, 3000) * (3 if deep else 1))]:
         n += 1
         add(check_linkstate(c))
+    # real SyncCrazyflie members over a fake Crazyflie: failed open / close leave no link open
+    for c in [c for c in _corpus_cases() if c.get('op') == 'realscf'] + [gen_realscf(rng, i) for i in range(ctx.scale(120, 1500))]:
+        n += 1
+        add(check_realscf(c))
     # open_links while the link of some member dropped between connected and fully_connected
     for i in range(ctx.scale(6, 40)):
         size = rng.randrange(2, 5)
@@ -2084,6 +2189,8 @@ def replay(payload, ctx):
         return check_history(c)
     if c.get('op') == 'process':
         return check_process(c)
+    if c.get('op') == 'realscf':
+        return check_realscf(c)
     if c.get('op') == 'linkstate':
         return check_linkstate(c)
     if c.get('op') == 'lifecycle':
